@@ -26,6 +26,68 @@ def _rt_edges(f, fld="urcu_workqueue.flags"):
     return out
 
 
+def worker_rules(rep, rid, w, S, FLAGS, FUTEX, QHEAD, QTAIL, FUNC, STOP, tag="worker"):
+    """The consumer thread of a wfcqueue-based work list (work queue worker, call_rcu helper): announce ≺ FULL ≺ queue read,
+    sleep only on an empty queue, private batch queue re-initialised before each splice, a grabbed batch always iterated,
+    every item's function invoked, the loop left only on STOP (and STOP can be reached)."""
+    # ---- B. the worker ------------------------------------------------------------------------------------------------
+    rep.touch(w)
+    dec = [e.inst for e in pat.accesses(w, FUTEX, ("rmw",)) if e.rop == "dec"]
+    qrd = [i for i in w.all_insts() if i.op in ("load", "asm", "rmw", "cmpxchg") and (lambda e: e is not None and e.ap is not None and any(x in pat.full_ap_fields(e.ap) for x in (QHEAD, QTAIL)))(mm.effect_of(i))]
+    pat.require(qrd, "worker: queue reads")
+    if not dec:
+        rep.bad(rid, tag + ".announce", "the worker never announces that it is about to sleep (futex dec): queue_work cannot know it has to wake it", [w.name])
+    else:
+        rep.must_pass(rid, tag + ".dec≺FULL≺queue", w, dec, qrd, lambda i: mm.is_full(i) and i not in dec, what="FULL between announcing sleep (futex dec) and reading the queue")
+    ws = waitloop.wait_sites(w)
+    if not ws:
+        rep.bad(rid, tag + ".sleeps", "the worker no longer sleeps on its futex", [w.name])
+    for k, s in enumerate(ws):
+        waitloop.check(rep, rid, tag + ".wait%d" % k, w, s)
+        # sleeps only after having seen the queue empty
+        lv = pat.dom_leaf_atoms(w, s)
+        emp = any(a[0] == "eq" and a[2] == ("c", 0) and a[1][0] == "load" and a[1][1].endswith("cds_wfcq_node.next") for a in lv)
+        rep.check(emp, rid, tag + ".wait%d.only-when-empty" % k, "the worker sleeps only after finding its queue empty", "the worker can sleep with work queued (emptiness test missing before the futex wait)", [s.where()])
+    ic = [i for i in w.all_insts() if i.op == "icall" and (lambda e: e[0] == "load" and e[1].endswith(FUNC))(ir.expr(w, i.d["fp"]))]
+    rep.check(bool(ic), rid, tag + ".runs-items", "every spliced item's func is invoked", "the worker does not invoke the queued work functions", [w.name])
+    # the loop is left only on STOP
+    rets = w.rets()
+    stop_edges = [(t.blk.id, s_) for t, s_, a in pat.branch_edges_on(w, lambda a: a[0] == "ne" and a[2] == ("c", 0) and a[1][0] == "bin" and a[1][1] == "and" and a[1][3] == ("c", STOP)
+                                                                   and a[1][2][0] == "load" and a[1][2][1].endswith(FLAGS))]
+    rep.must_take_edge(rid, tag + ".exits-only-on-STOP", w, [w.entry()], rets, stop_edges, include_start=True, what="the worker thread returns only after it observed STOP (%#x)" % STOP)
+    if ic and stop_edges:
+        # STOP is tested after the queue was drained in the same iteration: items queued before destroy are executed
+        rep.must_pass(rid, tag + ".drain≺STOP-test", w, [w.entry()], [w.blocks[b].insts[-1] for b, _ in stop_edges], lambda i: i in qrd, include_start=True,
+                      what="the queue is examined (spliced if non-empty) before STOP is tested")
+    hit, _ = w.reach([w.entry()], list(rets), include_start=True)
+    rep.check(hit is not None and bool(rets), rid, tag + ".can-exit", "the worker can leave its loop and return (destroy joins it)", "the worker thread can never return: urcu_workqueue_destroy blocks in pthread_join for ever", [w.name])
+    # the private batch queue: re-initialised before every splice, and a grabbed batch is always iterated
+    loc = lambda e: e is not None and e.ap is not None and ir.ap_str(w, e.ap).startswith("local:")
+    app = [e.inst for e in pat.accesses(w, None, ("xchg",)) if loc(e)]
+    init = [i for i in w.all_insts() if i.op == "store" and loc(mm.effect_of(i)) and any(l[0] in ("_cds_wfcq_init", "___cds_wfcq_init", "cds_wfcq_init") for l in (i.loc or ()))]
+    walk = [i for i in w.all_insts() if i.op == "load" and loc(mm.effect_of(i)) and pat.last_field(i.d["ap"]) == "cds_wfcq_node.next" and "head" in ir.ap_str(w, i.d["ap"])]
+    if not app:
+        rep.bad(rid, tag + ".batch", "the worker does not splice its queue into a private batch queue", [w.name])
+    else:
+        if len(init) < 2:
+            rep.bad(rid, tag + ".batch-init", "the private batch queue is not initialised (head.next = NULL, tail = head) before the splice appends to it", [app[0].where()])
+        else:
+            heads = [i for i in init if "head" in ir.ap_str(w, i.d["ap"])]
+            tails = [i for i in init if i not in heads]
+            for nm, grp in (("head", heads), ("tail", tails)):
+                rep.must_pass(rid, tag + ".batch-init." + nm, w, [w.entry()], app, lambda i, grp=grp: i in grp, include_start=True, what="the private queue's %s is initialised before the splice" % nm)
+                rep.must_pass(rid, tag + ".batch-reinit." + nm, w, app, app, lambda i, grp=grp: i in grp, what="the private queue's %s is re-initialised before the next splice" % nm)
+        stop_tests = [w.blocks[b].insts[-1] for b, _ in stop_edges]
+        if walk and stop_tests:
+            # once the append happened the splice result is DEST_EMPTY / DEST_NON_EMPTY (C10.splice): edges taken only for
+            # SRC_EMPTY are not continuations of a path through the append
+            SRC_EMPTY = w.mod.enum("cds_wfcq_ret", "CDS_WFCQ_RET_SRC_EMPTY")
+            pat.require(SRC_EMPTY is not None, "enum cds_wfcq_ret")
+            infeasible = set((t.blk.id, s_) for t, s_, a in pat.branch_edges_on(w, lambda a: a[0] == "eq" and a[1][0] == "phi" and a[2] == ("c", SRC_EMPTY)))
+            rep.must_pass(rid, tag + ".batch-run", w, app, stop_tests, lambda i: i in walk, edge_ok=pat.block_edge_filter(infeasible),
+                          what="a grabbed batch is iterated (its items run) before the worker looks at STOP / sleeps")
+
+
 def rule_workqueue(ctx, rep, rid):
     # ---- A. urcu_workqueue_queue_work: initialise, publish, wake -------------------------------------------------
     f = _f(ctx, "urcu_workqueue_queue_work")
@@ -47,28 +109,7 @@ def rule_workqueue(ctx, rep, rid):
             rep.must_pass(rid, "queue_work.publish≺FULL≺futex", f, xt, fu, lambda i: mm.is_full(i) and i not in xt, what="FULL barrier between the enqueue and the futex test")
             back, _ = f.reach(fu, xt)
             rep.check(back is None, rid, "queue_work.wake-last", "the wake-up test is not followed by another enqueue", "enqueue after the wake-up test", [fu[0].where()])
-    # ---- B. the worker ------------------------------------------------------------------------------------------------
     w = _f(ctx, "workqueue_thread")
-    rep.touch(w)
-    dec = [e.inst for e in pat.accesses(w, "urcu_workqueue.futex", ("rmw",)) if e.rop == "dec"]
-    qrd = [i for i in w.all_insts() if i.op in ("load", "asm", "rmw", "cmpxchg") and (lambda e: e is not None and e.ap is not None and any(x in pat.full_ap_fields(e.ap) for x in ("urcu_workqueue.cbs_head", "urcu_workqueue.cbs_tail")))(mm.effect_of(i))]
-    pat.require(qrd, "worker: queue reads")
-    if not dec:
-        rep.bad(rid, "worker.announce", "the worker never announces that it is about to sleep (futex dec): queue_work cannot know it has to wake it", [w.name])
-    else:
-        rep.must_pass(rid, "worker.dec≺FULL≺queue", w, dec, qrd, lambda i: mm.is_full(i) and i not in dec, what="FULL between announcing sleep (futex dec) and reading the queue")
-    ws = waitloop.wait_sites(w)
-    if not ws:
-        rep.bad(rid, "worker.sleeps", "the worker no longer sleeps on its futex", [w.name])
-    for k, s in enumerate(ws):
-        waitloop.check(rep, rid, "worker.wait%d" % k, w, s)
-        # sleeps only after having seen the queue empty
-        lv = pat.dom_leaf_atoms(w, s)
-        emp = any(a[0] == "eq" and a[2] == ("c", 0) and a[1][0] == "load" and a[1][1].endswith("cds_wfcq_node.next") for a in lv)
-        rep.check(emp, rid, "worker.wait%d.only-when-empty" % k, "the worker sleeps only after finding its queue empty", "the worker can sleep with work queued (emptiness test missing before the futex wait)", [s.where()])
-    ic = [i for i in w.all_insts() if i.op == "icall" and (lambda e: e[0] == "load" and e[1].endswith("urcu_work.func"))(ir.expr(w, i.d["fp"]))]
-    rep.check(bool(ic), rid, "worker.runs-items", "every spliced item's func is invoked", "the worker does not invoke the queued work functions", [w.name])
-    # the loop is left only on STOP
     stop_bits = set()
     for g in (_f(ctx, "urcu_workqueue_destroy"),):
         for e in pat.accesses(g, "urcu_workqueue.flags", ("rmw",)):
@@ -76,41 +117,7 @@ def rule_workqueue(ctx, rep, rid):
                 stop_bits.add(ir.const_of(g, e.val))
     pat.require(len(stop_bits) == 1, "destroy: STOP request")
     STOP = stop_bits.pop()
-    rets = w.rets()
-    stop_edges = [(t.blk.id, s_) for t, s_, a in pat.branch_edges_on(w, lambda a: a[0] == "ne" and a[2] == ("c", 0) and a[1][0] == "bin" and a[1][1] == "and" and a[1][3] == ("c", STOP)
-                                                                   and a[1][2][0] == "load" and a[1][2][1].endswith("urcu_workqueue.flags"))]
-    rep.must_take_edge(rid, "worker.exits-only-on-STOP", w, [w.entry()], rets, stop_edges, include_start=True, what="the worker thread returns only after it observed STOP (%#x)" % STOP)
-    if ic and stop_edges:
-        # STOP is tested after the queue was drained in the same iteration: items queued before destroy are executed
-        rep.must_pass(rid, "worker.drain≺STOP-test", w, [w.entry()], [w.blocks[b].insts[-1] for b, _ in stop_edges], lambda i: i in qrd, include_start=True,
-                      what="the queue is examined (spliced if non-empty) before STOP is tested")
-    hit, _ = w.reach([w.entry()], list(rets), include_start=True)
-    rep.check(hit is not None and bool(rets), rid, "worker.can-exit", "the worker can leave its loop and return (destroy joins it)", "the worker thread can never return: urcu_workqueue_destroy blocks in pthread_join for ever", [w.name])
-    # the private batch queue: re-initialised before every splice, and a grabbed batch is always iterated
-    loc = lambda e: e is not None and e.ap is not None and ir.ap_str(w, e.ap).startswith("local:")
-    app = [e.inst for e in pat.accesses(w, None, ("xchg",)) if loc(e)]
-    init = [i for i in w.all_insts() if i.op == "store" and loc(mm.effect_of(i)) and any(l[0] in ("_cds_wfcq_init", "___cds_wfcq_init", "cds_wfcq_init") for l in (i.loc or ()))]
-    walk = [i for i in w.all_insts() if i.op == "load" and loc(mm.effect_of(i)) and pat.last_field(i.d["ap"]) == "cds_wfcq_node.next" and "head" in ir.ap_str(w, i.d["ap"])]
-    if not app:
-        rep.bad(rid, "worker.batch", "the worker does not splice its queue into a private batch queue", [w.name])
-    else:
-        if len(init) < 2:
-            rep.bad(rid, "worker.batch-init", "the private batch queue is not initialised (head.next = NULL, tail = head) before the splice appends to it", [app[0].where()])
-        else:
-            heads = [i for i in init if "head" in ir.ap_str(w, i.d["ap"])]
-            tails = [i for i in init if i not in heads]
-            for nm, grp in (("head", heads), ("tail", tails)):
-                rep.must_pass(rid, "worker.batch-init." + nm, w, [w.entry()], app, lambda i, grp=grp: i in grp, include_start=True, what="the private queue's %s is initialised before the splice" % nm)
-                rep.must_pass(rid, "worker.batch-reinit." + nm, w, app, app, lambda i, grp=grp: i in grp, what="the private queue's %s is re-initialised before the next splice" % nm)
-        stop_tests = [w.blocks[b].insts[-1] for b, _ in stop_edges]
-        if walk and stop_tests:
-            # once the append happened the splice result is DEST_EMPTY / DEST_NON_EMPTY (C10.splice): edges taken only for
-            # SRC_EMPTY are not continuations of a path through the append
-            SRC_EMPTY = w.mod.enum("cds_wfcq_ret", "CDS_WFCQ_RET_SRC_EMPTY")
-            pat.require(SRC_EMPTY is not None, "enum cds_wfcq_ret")
-            infeasible = set((t.blk.id, s_) for t, s_, a in pat.branch_edges_on(w, lambda a: a[0] == "eq" and a[1][0] == "phi" and a[2] == ("c", SRC_EMPTY)))
-            rep.must_pass(rid, "worker.batch-run", w, app, stop_tests, lambda i: i in walk, edge_ok=pat.block_edge_filter(infeasible),
-                          what="a grabbed batch is iterated (its items run) before the worker looks at STOP / sleeps")
+    worker_rules(rep, rid, w, None, "urcu_workqueue.flags", "urcu_workqueue.futex", "urcu_workqueue.cbs_head", "urcu_workqueue.cbs_tail", "urcu_work.func", STOP)
     # ---- C. creation: the worker thread exists ----------------------------------------------------------------------------
     for name in ("urcu_workqueue_create", "urcu_workqueue_create_worker"):
         c = _f(ctx, name)
